@@ -29,17 +29,35 @@ def gen_frame(rng, n=None, complete=True):
     cols["y"] = [rng.randrange(-8, 9) / 2 for _ in range(n)]
     cols["x"] = [float(rng.randrange(-6, 7)) for _ in range(n)]
     cols["z"] = [rng.randrange(-8, 9) / 4 for _ in range(n)]
-    cols["k"] = cat([1, 2, 3])
+    cols["k"] = cat([1, 2, 10])          # numeric ids that sort differently as strings
     cols["n"] = [rng.randrange(3, 9) for _ in range(n)]
     cols["s"] = [rng.randrange(0, t + 1) for t in cols["n"]]
     for name in ("f", "g", "h"):
         cols[name] = cat(LV[name])
     cols["yc"] = cat(["no", "yes", "maybe"])
     df = pd.DataFrame(cols)
-    df["cu"] = pd.Categorical(cat(LV["cu"]))
+    # unordered Categorical whose declared categories are NOT in sorted order
+    df["cu"] = pd.Categorical(cat(LV["cu"]), categories=["m3", "m1", "m2"])
     df["co"] = pd.Categorical(cat(LV["co"]), categories=CO_ORDER, ordered=True)
     df["unused"] = [rng.randrange(0, 100) for _ in range(n)]
-    return df
+    return scramble_index(rng, df)
+
+
+def scramble_index(rng, df):
+    """row labels must not matter: default RangeIndex, a permuted integer index, or non-unique
+    labels (e.g. two concatenated batches)"""
+    k = rng.randrange(3)
+    if k == 0:
+        return df.reset_index(drop=True)
+    out = df.copy()
+    n = len(out)
+    if k == 1:
+        idx = list(range(100, 100 + n))
+        rng.shuffle(idx)
+        out.index = idx
+    else:
+        out.index = [rng.randrange(0, max(2, n // 2)) for _ in range(n)]
+    return out
 
 
 NUM_ATOMS = ["x", "z", "center(x)", "I(x + 1)", "{z * 2}", "center(z - 1)"]
